@@ -1,0 +1,15 @@
+//go:build verif
+
+// Machine-checked contracts for package machos (comment-only; see /verif/DESIGN.md).
+
+package machos
+
+//@ func scanFile
+//@   property C11
+//@   nopanic
+//@   requires r != nil
+//@
+//@ func cstring
+//@   property C11
+//@   nopanic
+//@   modifies nothing
